@@ -130,6 +130,11 @@ class StructVal:
     def unpack_from(self, it, buf, offset=0):
         if isinstance(buf, (bytes, bytearray)):
             buf = BytesVal.of(buf)
+        from .pybuiltins import Rope
+        if (isinstance(buf, Rope) and isinstance(buf.parts[0], BytesVal) and isinstance(offset, int)
+                and 0 <= offset and offset + self.size <= len(buf.parts[0].items)):
+            # a concatenation whose leading fixed-length part holds the whole struct
+            buf = buf.parts[0]
         n = py_len(it, buf)
         if is_sym(offset) and isinstance(buf, BytesVal):
             for k in range(0, len(buf.items) + 1):
